@@ -480,7 +480,7 @@ def hiDiscover (a : Agent) (l : Cand) (src : Nat) (m : Msg) (rc : Option Cand) :
   | some r => (a, [], some r)
   | none =>
     let c : Cand := { uid := 0, ty := 3, net := l.net, addr := src, comp := l.comp, rel := some 0,
-                      prio := match m.prio with | some p => if p == 0 then prflxPriority l.comp else p | none => prflxPriority l.comp }
+                      prio := match m.prio with | some p => if p == 0 then prflxPriority l.net l.comp else p | none => prflxPriority l.net l.comp }
     a.addRemoteCandidate c
 
 def hiReq (a : Agent) (now : Nat) (m : Msg) (l r : Cand) (o0 : List Out) : Agent × List Out :=
